@@ -33,6 +33,16 @@ PLAN = {
     "C20": {"quick": ["struct3", "struct4s", "struct5s", "struct3n0", "seg13", "seg6s"], "thorough": ["struct3", "struct4s", "struct5s", "struct4", "seg13", "struct3k"]},
 }
 
+# construction by import (C05: a source lineage column, consistent or not): the import part of C12, whose trace module
+# also evaluates LidsOK on the imported solution; (part, label of its FAIL lines)
+def _io_parts():
+    from . import io_props
+    imp = [p for p in io_props.C12_PARTS if p["name"] == "import_df"][0]
+    return {"C05": [(imp, "C12")]}
+
+
+IO_PARTS = _io_parts()
+
 # random sessions in which TLC evaluates the property's state invariant after every call
 SESSION_SUITES = {"C03": ("struct4", "struct3", "struct5"), "C04": ("struct4", "struct3", "struct5"),
                   "C05": ("struct4", "struct3", "struct5"), "C06": ("struct4", "struct3", "struct5"), "C07": ("seg13", "seg3d"), "C08": ("seg13", "seg3d"), "C09": ("seg13", "seg3d"),
@@ -106,6 +116,24 @@ def run(prop, tier, seed, replay_path=None):
             sv, session_info = hist_check.session_phase(prop, tier, seed, scratch_root, log, SESSION_SUITES[prop])
             for v in sv:
                 session_viols.append(v)
+        # "after construction" by IMPORT: the pipeline part(s) whose trace module also evaluates this property
+        io_viols, io_info = [], []
+        for part, label in IO_PARTS.get(prop, []):
+            from . import io_check
+            if tier not in part.get("tiers", ("quick", "thorough")):
+                continue
+            sc = os.path.join(scratch_root, "io_" + part["name"])
+            os.makedirs(sc)
+            d = io_check.run_design(part, tier, sc, log)
+            shards, info = io_check.run_real(part, tier, seed, sc, d)
+            res = io_check.run_trace(part, tier, shards, sc, log, label)
+            if res["counts"][0] != info["records"]:
+                raise MachineryError(f"part {part['name']}: TLC saw {res['counts'][0]} records, harness wrote {info['records']}")
+            info.update({"part": part["name"], "drift": len(res["drift"])})
+            io_info.append(info)
+            total_records += res["counts"][0]
+            for sh, idx in res["fails"]:
+                io_viols.append((part["name"], cf.get_record(sh, idx)))
     except MachineryError as e:
         print(f"MACHINERY-ERROR property={prop}: {e}")
         for l in logs[-2:]:
@@ -142,6 +170,13 @@ def run(prop, tier, seed, replay_path=None):
             json.dump({"property": prop, "suite": v["suite"], "failing_step": v["step"], "session": v["session"]},
                       open(path, "w"))
             print(f"VIOLATION property={prop} replay={path}")
+    for pname, rec in io_viols:
+        n_viol += 1
+        if n_viol <= 30:
+            os.makedirs(rdir, exist_ok=True)
+            path = os.path.join(rdir, f"io_{pname}_{n_viol}.json")
+            json.dump({"property": prop, "part": pname, "record": rec}, open(path, "w"))
+            print(f"VIOLATION property={prop} replay={path}")
     for d in drift_all[:10]:
         print(f"DRIFT property={prop} suite={d['suite']} call={d['call']} what={d['what']} path={d['path']}")
     cov = {
@@ -155,7 +190,7 @@ def run(prop, tier, seed, replay_path=None):
         "samples": samples[:6],
         "exhaustive": all(c["catalogue_used"] == c["catalogue_states"] for c in cats),
         "design_level": design, "catalogue": cats, "replay": reps, "trace_check": traces,
-        "sessions": session_info,
+        "sessions": session_info, "import_construction": io_info,
         "drift": drift_all[:20], "drift_count": sum(t["drift"] for t in traces),
         "refinement_holds": sum(t["drift"] for t in traces) == 0,
     }
